@@ -96,6 +96,10 @@ CHECKS = {
                 text="All ordered (source, target) pairs of a 16-packet pool (payload-less, zero-length payloads, equal-looking, typed, decoder-produced) x copy/move construction and assignment, self assignments, all two-assignment sequences, equality laws on all pairs; the same for 9 Payload and 6 TECMP::Payload objects; observation through all getters under ASan in forked workers.",
                 note="Equality must agree with field-by-field comparison only for non-empty payloads (as the property states).",
                 technique="exhaustive enumeration of object pairs x value operations (2-step histories) on the real classes"),
+    "C16": dict(level="model_checking", design="4/C16",
+                text="31-operation alphabet over 3 devices x 2 interfaces x 2 message variants: unmerged tree of copied real Status objects to depth 4 (quick) / 5 (thorough), every prefix judged, plus BFS merged on the full ordered observable state to depth 9 / 12; after every operation counts, lookups by id and every getter/byte of every stored packet are compared with a latest-message map.",
+                note="Vector order is not constrained; 'random beyond the bound' is not done (the completed bound is reported).",
+                technique="explicit-state model checking (operation-sequence tree + BFS with state merging) of the real object against a reference model"),
 }
 
 PENDING_REASON = "check under construction (see DESIGN.md section 4); will be claimed once its engine is committed"
